@@ -191,7 +191,10 @@ def prepare(workdir):
 
 
 # (a stray sub-directory is not something an earlier generator run could have left behind, so it is not planted)
-FAULT_KINDS = ["delete", "empty", "prefix", "stale_other", "stale_line", "flip_byte", "append_ws", "extra_file", "delete_dir"]
+FAULT_KINDS = ["delete", "empty", "prefix", "stale_other", "stale_line", "flip_byte", "append_ws", "extra_file", "delete_dir", "foreign"]
+# entries a working tree plausibly contains next to generated files and that are nobody's artefact: they may stay or go,
+# but they must not keep the generator from doing its work (names without an extension, dotfiles, a directory)
+FOREIGN_NAMES = [".DS_Store", "NOTES", ".gitkeep", "Makefile", "zz_verif_foreign_dir/"]
 CRASH_MANNERS = ["before", "truncate", "torn", "after", "enospc"]
 
 
@@ -222,6 +225,9 @@ def gen_scenario(c, i, seed, tier):
         elif kind == "delete_dir":
             d = rng.choice(c.generated_dirs)
             faults.append({"kind": kind, "path": d})
+        elif kind == "foreign":
+            d = rng.choice(c.generated_dirs)
+            faults.append({"kind": kind, "path": os.path.join(d, rng.choice(FOREIGN_NAMES))})
         elif kind == "stale_other":
             faults.append({"kind": kind, "path": rng.choice(gen), "other": rng.choice(gen)})
         else:
@@ -271,6 +277,13 @@ def apply_fault(root, c, f):
         elif kind == "extra_dir":
             os.makedirs(p, exist_ok=True)
             open(os.path.join(p, "zz_verif_inner.rs"), "w").write("// stale\n")
+        elif kind == "foreign":
+            if f["path"].endswith("/"):
+                os.makedirs(p, exist_ok=True)
+                open(os.path.join(p, "keep"), "w").write("not a generated artefact\n")
+            else:
+                os.makedirs(os.path.dirname(p), exist_ok=True)
+                open(p, "w").write("not a generated artefact\n")
         elif kind == "delete_dir":
             shutil.rmtree(p, ignore_errors=True)
         elif kind == "delete_all_generated":
@@ -284,10 +297,13 @@ def apply_fault(root, c, f):
         return False
 
 
-def compare(root, c):
-    """differences between the scratch tree and the reference R (ignoring our own trace file)"""
+def compare(root, c, foreign=()):
+    """differences between the scratch tree and the reference R (ignoring our own trace file and planted foreign entries)"""
     st = tree_state(root)
     st.pop(".verif_trace", None)
+    for fp in foreign:
+        for p in [x for x in st if x == fp.rstrip("/") or x.startswith(fp.rstrip("/") + "/")]:
+            st.pop(p, None)
     out = []
     for p in sorted(set(st) | set(c.Rstate)):
         a, b = st.get(p), c.Rstate.get(p)
@@ -390,7 +406,7 @@ def exec_scenario(c, sc, keep=False):
         viol.append(("converges_after_faults_stop", "clean-run-fails:" + (first.split("panicked at ")[-1].split(":")[0] if first else "status%s" % st) + ":" + culprit,
                      "the fault-free execution after the last fault exits with status %s (%s); output: %s" % (st, first, out[-300:].replace("\n", " | "))))
     else:
-        d = compare(root, c)
+        d = compare(root, c, foreign=[f["path"] for f in sc["faults"] if f["kind"] == "foreign"])
         for p, what in d[:8]:
             viol.append(("converges_after_faults_stop", "not-converged:%s:%s" % (what, classify_path(p)), "after one fault-free execution %s is %s compared with the reference tree" % (p, what)))
         if sc.get("final_runs", 1) > 1 and not d:
